@@ -70,11 +70,17 @@ def norm_tokens(text):
             out.append("".join(t.lower() for k, t in toks if t not in (",",) and k != "str") )
             out.extend(t for k, t in toks if k == "str")
             continue
-        for k, t in toks:
+        head = next((t.lower() for k, t in toks if k == "name"), "")
+        for j, (k, t) in enumerate(toks):
             if k == "str":
                 out.append(t)
             elif k in ("num", "boz", "dot"):
                 out.append(t.lower())
+            elif k == "op" and t in ("**", "//", "==", "/=", "<=", ">=", "=>") or (k == "sym" and t in "<>+"):
+                # operators are expression text; the // of a leading blank common is fparser1's to drop (COMMON // c -> COMMON c)
+                if t == "//" and head == "common" and j > 0 and toks[j - 1][1].lower() == "common":
+                    continue
+                out.append(t)
             elif k == "name":
                 low = t.lower()
                 if low not in lexer.KEYWORDS and low not in lexer.COMPOUND:
